@@ -44,6 +44,7 @@ type SpecEnv struct {
 	Fuel  string // fuel term passed to recursive spec functions (inside their own definitions)
 	DcsOf types.Type // set while the body of the generated dcs_<T> is being evaluated
 	dcsEntered bool
+	LoopEntry map[string]HeapView // heap views at the entry of the loops entered so far, by ordinal (atLoop(n, e))
 	FnScope *types.Scope // scope of the function whose contract is evaluated: types declared inside its body can be named
 }
 
@@ -791,6 +792,44 @@ func (e *SpecEnv) evalCall(x SCall) SV {
 			e.fail("loopBound() outside a loop invariant")
 		}
 		return sv
+	case "atLoop":
+		// atLoop(n, e): e read from the memory as it was when the n-th loop of the function was (last) entered; the variables
+		// in e keep their current values. Lets an invariant say "this field still holds what it held when the loop started".
+		if len(x.Args) != 2 {
+			e.fail("atLoop(n, e)")
+		}
+		lit, ok := x.Args[0].(SIntLit)
+		if !ok {
+			e.fail("atLoop(n, e) wants an integer literal")
+		}
+		hv, ok := e.LoopEntry[lit.V]
+		if !ok {
+			e.fail("atLoop(%s, ...): the loop has not been entered here", lit.V)
+		}
+		ne := e.clone()
+		ne.Cur = hv
+		return ne.Eval(x.Args[1])
+	case "rangeLen":
+		// rangeLen(): in an invariant of a "for i := range slice" loop, the length of the slice taken when the loop started
+		sv, ok := e.Vars["#rangelen"]
+		if !ok {
+			e.fail("rangeLen() outside the invariant of a range-over-slice loop")
+		}
+		return sv
+	case "iterBound":
+		// iterBound(n): allocation counter at the head of the n-th loop of the function, current iteration
+		if len(x.Args) != 1 {
+			e.fail("iterBound(n) wants a loop ordinal")
+		}
+		lit, ok := x.Args[0].(SIntLit)
+		if !ok {
+			e.fail("iterBound(n) wants an integer literal")
+		}
+		sv, ok := e.Vars["#iterbound"+lit.V]
+		if !ok {
+			e.fail("iterBound(%s): the loop has not been entered here", lit.V)
+		}
+		return sv
 	case "allocBound":
 		// every array/object id allocated so far is below this bound
 		return SV{Term: e.Cur.Next(), Typ: intT}
@@ -1107,6 +1146,11 @@ func (e *SpecEnv) evalCall(x SCall) SV {
 	case "isElem":
 		// isElem(p): p points into a slice backing array (not a separately allocated object)
 		return SV{Term: fmt.Sprintf("((_ is elem) %s)", e.refOf(arg(0))), Typ: boolT}
+	case "objId":
+		// objId(p): the allocation id of what p points to - the object's own id, the id of the backing array for a pointer
+		// into a slice, 0 for nil. Ids are handed out in increasing order: objId(a) < objId(b) says a was allocated first.
+		r := e.refOf(arg(0))
+		return SV{Term: fmt.Sprintf("(ite ((_ is obj) %s) (oid %s) (ite ((_ is elem) %s) (earr %s) 0))", r, r, r, r), Typ: intT}
 	case "arrOf":
 		// arrOf(p): identity of the backing array p points into (meaningful when isElem(p); compare with arr(s))
 		return SV{Term: fmt.Sprintf("(earr %s)", e.refOf(arg(0))), Typ: intT}
